@@ -5,7 +5,7 @@ from __future__ import annotations
 import ast
 from typing import Dict, List, Optional, Tuple
 
-from ..core import AnalysisError, FuncInfo, Repo, attr_chain, call_name, is_const, unparse, walk_no_nested
+from ..core import AnalysisError, FuncInfo, Repo, attr_chain, call_name, deviates, is_const, unparse, walk_no_nested
 from ..report import Ctx
 from ..skelrules import check_skeleton
 
@@ -95,10 +95,19 @@ def check_counter(ctx: Ctx, f: FuncInfo, ops: Tuple[str, ...]) -> None:
         return
     # loop condition: state is not the identity
     test = unparse(lp.test)
-    ident_names = [k for k, v in inits.items() if unparse(v) in (f"list({f.params[0]}.identity(len({f.params[0]})))", f"{f.params[0]}.identity(len({f.params[0]}))", f"list(range(len({f.params[0]})))")]
+    me = f.params[0]
+    copies = [k for k, v in inits.items() if unparse(v) in (me, f"list({me})", f"tuple({me})")]
+
+    def norm(t: str) -> str:  # a copy of the permutation has the permutation's length
+        for c in copies:
+            t = t.replace(f"len({c})", f"len({me})")
+        return t
+
+    ident_names = [k for k, v in inits.items() if norm(unparse(v)) in (f"list({me}.identity(len({me})))", f"{me}.identity(len({me}))", f"list(range(len({me})))", f"tuple(range(len({me})))", f"[*range(len({me}))]")]
     ok = test == f"not {state}.is_increasing()" or any(test in (f"{state} != {i}", f"{i} != {state}") for i in ident_names)
     if not ok:
-        ctx.violation("C12-S2", f, lp, f"passes continue while `{test}`; expected 'while the current arrangement is not the identity'")
+        wants = [f"not {state}.is_increasing()"] + [f"{a} != {b}" for i in ident_names for a, b in ((state, i), (i, state))]
+        deviates(ctx, "C12-S2", f, lp, test, wants, f"passes continue while `{test}`; expected 'while the current arrangement is not the identity'", k=2)
         return
     ctx.ok("C12-S2", f.where, f"counter: start 0; while not identity: apply {opname} once to the previous result, +1; return counter", lp, f)
 
@@ -313,8 +322,15 @@ def check_recursive_sort(ctx: Ctx, f: FuncInfo, right_sorted: bool) -> None:
         raise AnalysisError(f"{f.where}: selection of the largest entry not recognised")
     mi, mv = [unparse(e) for e in mx[0].targets[0].elts]
     key = next((k.value for k in mx[0].value.keywords if k.arg == "key"), None)
-    if not (isinstance(key, ast.Lambda) and unparse(key.body) == f"{key.args.args[0].arg}[1]"):
-        ctx.violation("C12-R1", f, mx[0], "the pivot is not the entry of largest *value* (key must select the value of each (position, value) pair)")
+    selects = None  # which component of each (position, value) pair the key compares
+    if isinstance(key, ast.Lambda) and len(key.args.args) == 1 and isinstance(key.body, ast.Subscript) and unparse(key.body.value) == key.args.args[0].arg and isinstance(key.body.slice, ast.Constant):
+        selects = key.body.slice.value
+    elif isinstance(key, ast.Call) and call_name(key) in (("operator", "itemgetter"), ("itemgetter",)) and len(key.args) == 1 and isinstance(key.args[0], ast.Constant) and not key.keywords:
+        selects = key.args[0].value
+    if selects is None:
+        raise AnalysisError(f"{f.where}: the key of the pivot selection (`{unparse(key)[:50] if key is not None else None}`) is not recognised")
+    if selects not in (1, -1):
+        ctx.violation("C12-R1", f, mx[0], "the pivot is not the entry of largest *value* (key must select the value of each (position, value) pair)", robust=True)
         return
     base = [st for st in f.body if isinstance(st, ast.If) and unparse(st.test) in (f"{n} in (0, 1)", f"{n} <= 1", f"{n} < 2")]
     if not (base and unparse(base[0].body[0]) == f"return {sl}"):
@@ -342,11 +358,12 @@ def check_recursive_sort(ctx: Ctx, f: FuncInfo, right_sorted: bool) -> None:
             cases["else"] = norm(cur.orelse)
             cur = None
     tail = [unparse(st) for st in f.body[f.body.index(chain[0]) + 1:]]
-    left = f"{rec}({sl}[0:{mi}])"
-    right_general = f"{rec}({sl}[{mi} + 1:{n}])" if right_sorted else f"{sl}[{mi} + 1:{n}]"
+    # slices are read in their canonical spelling (sa/canon.py: x[0:k] = x[:k], x[a:len(x)] = x[a:], x[:len(x) - 1] = x[:-1])
+    left = f"{rec}({sl}[:{mi}])"
+    right_general = f"{rec}({sl}[{mi} + 1:])" if right_sorted else f"{sl}[{mi} + 1:]"
     want = {
-        f"{mi} == 0": [[f"n_lis = {rec}({sl}[1:{n}])"] if right_sorted else [f"n_lis = {sl}[1:{n}]"]],
-        f"{mi} == {n} - 1": [[f"n_lis = {rec}({sl}[0:{n} - 1])"]],
+        f"{mi} == 0": [[f"n_lis = {rec}({sl}[1:])"] if right_sorted else [f"n_lis = {sl}[1:]"]],
+        f"{mi} == {n} - 1": [[f"n_lis = {rec}({sl}[:-1])"]],
         "else": [[f"n_lis = {left}", f"n_lis.extend({right_general})"]],
     }
     accname = None
